@@ -15,6 +15,8 @@ CFG = {
         "Parsley.C07.tiff_zero_row_not_injective_witness",
         "Parsley.C07.tiffRows_reencodes", "Parsley.C07.tiffRow_reencodes",
         "Parsley.C07.sumLeftLoop_reencodes", "Parsley.C07.sumLeftLoop_inv",
+        # sweep: default-valued /DecodeParms entries left out (defaults of ISO 32000-1 Table 8 stated in Spec/Predictor.lean)
+        "Parsley.C07.predictor_roundtrip_omitted", "Parsley.C07.transformTail_spelled", "Parsley.C07.entries_spelled",
     ],
     "partial": {},
     "n": {"quick": 1500, "thorough": 100000},
@@ -24,8 +26,16 @@ CFG = {
             "loop ((a,b) stride 11 quick, all pairs thorough); random images from the spec's forward filters: predictor {2,10..14} x "
             "colors 1..5 x columns 1..12 (1/12: up to 200/300) x bpc {1,2,4,8,16} (TIFF 8,16) x 1..5 rows, bytes half from "
             "{0,1,2,127,128,129,254,255}, alternately through zlib+FlateDecode::transform (i64 parameters in a real DictT) and the "
-            "verif_predict hook; one single-rule mutation per image (truncate, extend, alter a byte, wrong Columns/Colors/Predictor/"
-            "BitsPerComponent, absent keys); every value of a 32-element boundary set (0, negatives, 2^31..2^32+1, 2^61, 2^62, "
+            "verif_predict hook - one image in six has a SINGLE COLUMN, and the /DecodeParms of a zlib case is written by the spec-side "
+            "writer PredSpec.Params.entries with every entry written / every default-valued entry left out / a random subset of the "
+            "default-valued entries left out (defaults of ISO 32000-1 Table 8: Predictor 1, Colors 1, BitsPerComponent 8, Columns 1, "
+            "stated in Spec/Predictor.lean, not read off the model); one single-rule mutation per image (truncate, extend, alter a byte, "
+            "wrong Columns/Colors/Predictor/BitsPerComponent, absent keys, /Columns absent whatever its value, one entry replaced by a "
+            "non-integer object); exhaustive small enumeration of the option glue through zlib+FlateDecode::transform: predictor "
+            "{1,2,10..15} x colours {1,3} x columns {1,4} x two sample sizes x EVERY subset of the default-valued entries left out "
+            "(single-column images under all eight predictors with /Columns absent), then each of the four entries replaced by a "
+            "non-integer object of seven types (null, real, string, name, boolean, array, indirect reference: the code reads them as "
+            "absent; judged: no panic, and /Predictor 1 is still the identity); every value of a 32-element boundary set (0, negatives, 2^31..2^32+1, 2^61, 2^62, "
             "i64::MAX, i64::MIN ...) in every parameter position x 5 data shapes x both entry points, plus random boundary "
             "4-tuples. Non-trivial = accepted parameters with an encoder-shaped stream of >=2 rows, rows longer than a pixel and a "
             "predictor other than None; or parameters outside the accepted set (predictor != 1); or a Paeth line.",
